@@ -201,6 +201,9 @@ _KNOWN = None
 
 
 def _alarm(signum, frame):
+    # re-arm first: an exception raised while a __del__ happens to be running is swallowed by
+    # the interpreter, and the spinning code would then never be interrupted again
+    signal.alarm(2)
     raise WallClockHang("one case took more than %d s of real time" % CASE_WALL_LIMIT)
 
 
